@@ -985,7 +985,8 @@ def monitor_history(ops, obs, elem_size=8):
                 fails.append((i, ["C11"], "slot s%d: the stored address moved from +%d to +%d while the allocation lives" % (k, s["off"], post[k]["off"])))
         # C12: a union slot keeps its variant and block until it is dropped
         for k, s in pre.items():
-            if s["kind"] in ("unionA", "unionB") and k in post and f[0] not in ("drop", "dropAll") and post[k] is not None:
+            if s["kind"] in ("unionA", "unionB") and k in post and f[0] not in ("drop", "dropAll") and post[k] is not None \
+                    and not (f[0] == "cloneFrom" and len(f) == 3 and f[1] == str(k)):      # clone_from assigns: the old value of the target is released
                 if post[k]["kind"] != s["kind"] or post[k]["blk"] != s["blk"]:
                     fails.append((i, ["C12"], "union slot s%d changed variant/allocation: %s -> %s" % (k, s, post[k])))
         pre = post
